@@ -1478,6 +1478,7 @@ import xspecs
 
 SPECS = {
     "O19.2": [xspecs.fifo_choose],
+    "O4.5": [xspecs.register_tables_step],
     "O4.1": [xspecs.version_roundtrip],
     "O15.3": [xspecs.drop_range_choose],
     "O1.4": [xspecs.point_read_tables],
